@@ -1,6 +1,7 @@
 import OnlVerif.Lemmas.KernelStep
 import OnlVerif.Lemmas.KAccess
 import OnlVerif.Lemmas.SplitStep
+import OnlVerif.Lemmas.SplitDemo
 import OnlVerif.Props.C01
 /-!
 # C03 — runs are reproducible and unaffected by where they are stopped and resumed
@@ -129,6 +130,98 @@ theorem steps_then_run (body : σ → Resume → Burst ℚ σ) (fuel : Nat) (u :
     (h : stepN body fuel k s = .ok s1) :
     runLoop body fuel u k s = .outOfFuel s1 ∧ runLoop body fuel u (k + n) s = runLoop body fuel u n s1 :=
   ⟨(runLoop_outOfFuel_iff body fuel u k s s1).mpr h, runLoop_of_stepN_ok body fuel u k n s s1 h⟩
+
+/-! ## Split transparency, stage 2: `run(until=event)` splits
+
+`run(until=e)` changes the state in one way only: it appends `Cb.stop` (`StopSimulation.callback`) to the callback list of
+`e`.  `KState.stripBy P` erases the stops of the events selected by `P` (`KState.strip`: of all events);
+`StopEq P s1 s2` := `s1.stripBy P = s2.stripBy P` ("equal except for stops on `P`-events");
+`StopFree P s` := `s.stripBy P = s` ("no `P`-event carries a stop", `StopFree.iff`); `AllStopFree` := `StopFree (fun _ => true)`.
+`Lemmas/SplitStrip*.lean` prove, function by function (all 18 API calls, bursts of every program, `_resume`, interrupt
+delivery, conditions, resource scans, the callback loop), that the erasure commutes with the model:
+`f (s.stripBy P) = (f s).stripBy P`, every reply / flag / branch condition being the same. -/
+
+/-- **The simulation lemma (one kernel step).**  If `s2` is the stop-free state `s1` plus `StopSimulation` callbacks (on
+events selected by `P`, at arbitrary positions of their callback lists) and `s1` does a normal step to `s1'`, then `s2`
+does the same step — it ends normally or with `StopSimulation` — to a state that is again `s1'` plus stop callbacks:
+every process resumed by the one is resumed by the other, in the same order, with the same values. -/
+theorem until_event_sim_step (body : σ → Resume → Burst ℚ σ) (fuel : Nat) (P : EvId → Bool) (s1 s2 s1' : KState ℚ σ)
+    (hf : StopFree P s1) (heq : StopEq P s1 s2) (h : step body fuel s1 = .ok s1') :
+    ∃ s2', (step body fuel s2 = .ok s2' ∨ ∃ o, step body fuel s2 = .stopped o s2') ∧ StopEq P s1' s2' ∧ StopFree P s1' :=
+  step_sim body fuel P s1 s2 s1' hf heq h
+
+/-- **Erasing stops commutes with a step, however the step ends** (normally, with `StopSimulation`, with an exception):
+the step from the erased state ends in the erasure of the state the step with the stops ends in.  In particular both
+steps append the same observations to the trace. -/
+theorem stop_erasure_commutes_with_step (body : σ → Resume → Burst ℚ σ) (fuel : Nat) (P : EvId → Bool) (s s' : KState ℚ σ)
+    (h : (step body fuel s).st? = some s') :
+    (step body fuel (s.stripBy P)).st? = some (s'.stripBy P) ∧ (s'.stripBy P).trace = s'.trace :=
+  ⟨step_stripBy_st P body fuel s s' h, rfl⟩
+
+/-- **A step ends with `StopSimulation` exactly when the callback list of the event it processes holds a stop.** -/
+theorem step_stops_iff_stop_registered (body : σ → Resume → Burst ℚ σ) (fuel : Nat) (s : KState ℚ σ) :
+    (∃ o s', step body fuel s = .stopped o s') ↔ ∃ q rest, popMin s.agenda = some (q, rest) ∧ s.hasStop q.ev = true :=
+  step_stopped_iff body fuel s
+
+/-- **The model never registers a stop**: a state in which no `P`-event carries a stop steps to such a state. -/
+theorem stop_free_preserved (body : σ → Resume → Burst ℚ σ) (fuel : Nat) (P : EvId → Bool) (s s' : KState ℚ σ)
+    (hf : StopFree P s) (h : (step body fuel s).st? = some s') : StopFree P s' :=
+  step_stopFree P body fuel s s' hf h
+
+/-- **While `run(until=e)` is running it is in lockstep with the uninterrupted run**: after `k` of its steps the state is
+the state of `k` uninterrupted steps plus stop callbacks, and those sit on `e` only. -/
+theorem until_event_lockstep (body : σ → Resume → Burst ℚ σ) (fuel k : Nat) (e : EvId) (s s2 : KState ℚ σ)
+    (hf : AllStopFree s) (h : stepN body fuel k (s.addCb e .stop) = .ok s2) :
+    stepN body fuel k s = .ok s2.strip ∧ s2.strip.trace = s2.trace ∧ StopFree (fun i => i != e) s2 :=
+  ⟨(runUntilEvent_lockstep body fuel k e s s2 hf h).1, rfl, (runUntilEvent_lockstep body fuel k e s s2 hf h).2⟩
+
+/-- **`run(until=event)` is transparent.**  From a state without stale stops, for an event `e` that is not processed yet:
+if `run(until=e)` returns (value `v`, state `s'`), then `s'` is *exactly* the state that `k + 1` uninterrupted `step()`
+calls reach, for some `k + 1 ≤` the step budget — same event table, agenda, clock, processes, resources and **the same
+trace**: no process was lost, duplicated or reordered by the stop.  `s'` carries no stop callback any more (`e` is
+processed), so every continuation — more `step()`s, any `run(...)` — continues the uninterrupted run. -/
+theorem until_event_split_transparent (body : σ → Resume → Burst ℚ σ) (fuel n : Nat) (e : EvId) (s s' : KState ℚ σ) (v : Val)
+    (hf : AllStopFree s) (hp : s.processed e = false) (h : runUntilEvent body fuel n e s = .returned v s') :
+    ∃ k, k < n ∧ stepN body fuel (k + 1) s = .ok s' ∧ AllStopFree s' ∧
+      (∀ m, stepN body fuel (k + 1 + m) s = stepN body fuel m s') ∧
+      (∀ u m, runLoop body fuel u (k + 1 + m) s = runLoop body fuel u m s') := by
+  obtain ⟨k, hk, h1, h2⟩ := runUntilEvent_transparent body fuel n e s s' v hf hp h
+  exact ⟨k, hk, h1, h2, fun m => stepN_add_ok body fuel (k + 1) m s s' h1,
+    fun u m => runLoop_of_stepN_ok body fuel u (k + 1) m s s' h1⟩
+
+/-- the hypotheses of `until_event_split_transparent` are satisfiable: in the two-process program of
+`Lemmas/SplitDemo.lean`, after `step(); step()`, `run(until=ev)` returns 7 — hence (by the theorem) in a state of the
+uninterrupted run -/
+example : ∃ k, k < 20 ∧ stepN SplitDemo.body 3 (k + 1) SplitDemo.s2 = .ok SplitDemo.s5 :=
+  let ⟨k, hk, h, _⟩ := until_event_split_transparent SplitDemo.body 3 20 SplitDemo.ev SplitDemo.s2 SplitDemo.s5 (.int 7)
+    SplitDemo.s2_stopFree SplitDemo.ev_pending SplitDemo.r5_returned
+  ⟨k, hk, h⟩
+
+/-- computed by the model: the whole split plan `step(); step(); run(until=ev); run(until=6); run()` leaves the trace
+(13 observations) of the single `run()` -/
+example : (SplitDemo.RunResult.st SplitDemo.r9).trace = (SplitDemo.RunResult.st SplitDemo.rAll).trace ∧
+    (SplitDemo.RunResult.st SplitDemo.rAll).trace.size = 13 := ⟨SplitDemo.split_trace_eq, SplitDemo.trace_size⟩
+
+/-- **A stale stop is harmless for `step()` calls**: a stop callback left behind on some event by an earlier `run(until=…)`
+that ended otherwise (an exception, an empty agenda) does not change what any number of normally returning `step()`
+calls do: same states up to the stops, same trace. -/
+theorem stale_stop_harmless_for_steps (body : σ → Resume → Burst ℚ σ) (fuel k : Nat) (s s' : KState ℚ σ)
+    (h : stepN body fuel k s = .ok s') : stepN body fuel k s.strip = .ok s'.strip ∧ s'.strip.trace = s'.trace :=
+  ⟨stepN_stripBy_ok _ body fuel k s s' h, rfl⟩
+
+/-- **… but it ends a later `run` early** (as in the implementation, where the callback raises `StopSimulation` out of
+`step()` whoever is running the loop): when the event carrying the stale stop is processed, a `run(until=u)` returns the
+*stale* event's value — or raises the exception of its own until-event if that has failed (`onStop`) —, in a state that is
+still a state of the uninterrupted run up to stops. -/
+theorem stale_stop_ends_later_run (body : σ → Resume → Burst ℚ σ) (fuel n : Nat) (u : Option EvId) (s s' : KState ℚ σ)
+    (o : Outcome) (h : step body fuel s = .stopped o s') :
+    runLoop body fuel u (n + 1) s = onStop u o s' ∧ (step body fuel s.strip).st? = some s'.strip :=
+  ⟨by simp only [runLoop, h], step_stripBy_st _ body fuel s s' (by rw [h]; rfl)⟩
+
+/-- a stale stop on `ev` (as an aborted `run(until=ev)` leaves it) makes a plain `run()` return 7 at time 2 -/
+example : SplitDemo.RunResult.val? (runAll SplitDemo.body 3 20 (SplitDemo.s2.addCb SplitDemo.ev .stop)) = some (.int 7) ∧
+    (SplitDemo.RunResult.st (runAll SplitDemo.body 3 20 (SplitDemo.s2.addCb SplitDemo.ev .stop))).now = 2 := by
+  decide +kernel
 
 /-
 Not proved (stated for the record): `split_transparent` —
